@@ -1357,11 +1357,9 @@ class Translator:
             fail("ParametersSet: data members are not `ParametersMap pmap; DuplicatesList dups;`")
         if not re.search(r"ParametersSet \( \) : pmap \( \) , dups \( \) \{ \}", cs):
             fail("ParametersSet(): shape not understood")
-        if not re.search(r"ParametersSet \( const ParametersSet & (\w+) \) : pmap \( \1 \. pmap \) , dups \( \1 \. dups \) \{ \}", cs):
-            fail("ParametersSet copy constructor: shape not understood")
-        if not re.search(r"ParametersSet & operator = \( const ParametersSet & (\w+) \) \{ this -> pmap = \1 \. pmap ; "
-                         r"this -> dups = \1 \. dups ; return \* this ; \}", cs):
-            fail("ParametersSet::operator=: shape not understood")
+        # wave 4: the copy constructor and operator= are TRANSLATED (which members they transfer), in the shapes they
+        # reasonably take: member-wise, `= default`, implicitly declared, copy-and-swap
+        copying = self.copying(cls)
 
         def member(head, what, plist_re):
             params, init, body = function_body(cls, head, what)
@@ -1370,7 +1368,7 @@ class Translator:
                 fail("%s: signature not understood: ( %s ) %s" % (what, J(params), J(init)))
             return m.groups(), parse_block(body)
 
-        out = {}
+        out = {"copying": copying}
         _, b = member(["void", "check", "("], "ParametersSet::check", r"")
         out["check"] = self.cbody(b, {"what": "check"})
         if find_seq(cls, ["void", "checkTypes", "("]) < 0:
@@ -1451,6 +1449,143 @@ class Translator:
             if not re.search(pat, text):
                 fail("%s: shape not understood (the model takes one policy object per C++ type as the type identity)" % what)
         return out
+
+    FIELDS = {"pmap": "FMap", "dups": "FDups"}
+
+    def copying(self, cls):
+        """the copy constructor and operator= of ParametersSet -> {"ctor": [fields], "assign": (kind, [fields])}
+        (Validate_Model.copying): which of the two members each of them transfers"""
+        F = self.FIELDS
+        cs = J(cls)
+        if "&&" in [t for i, t in enumerate(cls) if cls[i - 1:i] == ["ParametersSet"]]:
+            fail("ParametersSet: move constructor / move assignment: shape not understood")
+
+        def order(fs):
+            return [f for f in ("FMap", "FDups") if f in fs]
+        # ---- copy constructor
+        ctor = None
+        if re.search(r"ParametersSet \( const ParametersSet & \w* ?\) = default ;", cs):
+            ctor = ["FMap", "FDups"]
+        elif re.search(r"ParametersSet \( const ParametersSet & \w* ?\) = delete ;", cs):
+            fail("ParametersSet copy constructor is deleted")
+        else:
+            pos = -1
+            for q in range(len(cls) - 5):
+                if cls[q:q + 5] == ["ParametersSet", "(", "const", "ParametersSet", "&"] and (q == 0 or cls[q - 1] != "operator"):
+                    e = match_close(cls, q + 1)
+                    if e == q + 6 and re.fullmatch(r"\w+", cls[q + 5]):
+                        pos = q
+                        break
+            if pos < 0:
+                if re.search(r"ParametersSet \( (?:const )?ParametersSet", cs):
+                    fail("ParametersSet copy constructor: shape not understood")
+                ctor = ["FMap", "FDups"]
+                self.notes.append("ParametersSet has no user-declared copy constructor (implicit: member-wise)")
+            else:
+                o = cls[pos + 5]
+                k = pos + 7
+                got = set()
+                if cls[k] == ":":
+                    k += 1
+                    while cls[k] != "{":
+                        name = cls[k]
+                        if name not in F or cls[k + 1] not in ("(", "{"):
+                            fail("ParametersSet copy constructor: initialiser not understood: " + J(cls[k:k + 8]))
+                        e = match_close(cls, k + 1)
+                        arg = J(cls[k + 2:e])
+                        if arg == "%s . %s" % (o, name):
+                            got.add(F[name])
+                        elif arg != "":
+                            fail("ParametersSet copy constructor: %s initialised from %s" % (name, arg))
+                        k = e + 1
+                        if cls[k] == ",":
+                            k += 1
+                        elif cls[k] != "{":
+                            fail("ParametersSet copy constructor: shape not understood")
+                if cls[k] != "{":
+                    fail("ParametersSet copy constructor: shape not understood")
+                e = match_close(cls, k)
+                for st in parse_block(cls[k + 1:e]):
+                    js = J(st[1]) if st[0] == "simple" else st[0]
+                    m = re.fullmatch(r"(?:this -> )?(pmap|dups) = %s \. (pmap|dups)" % re.escape(o), js)
+                    if m and m.group(1) == m.group(2):
+                        got.add(F[m.group(1)])
+                    elif st[0] == "simple" and self.c_irrelevant(st[1]):
+                        continue
+                    else:
+                        fail("ParametersSet copy constructor: statement not understood: " + js)
+                ctor = order(got)
+        # ---- operator=
+        assign = None
+        if re.search(r"ParametersSet & operator = \( const ParametersSet & \w* ?\) = default ;", cs):
+            assign = ("AsFields", ["FMap", "FDups"])
+        elif re.search(r"operator = \( [^)]* \) = delete ;", cs):
+            fail("ParametersSet::operator= is deleted")
+        elif find_seq(cls, ["operator", "=", "("]) < 0:
+            assign = ("AsFields", ["FMap", "FDups"])
+            self.notes.append("ParametersSet has no user-declared operator= (implicit: member-wise)")
+        else:
+            if len([1 for q in range(len(cls) - 2) if cls[q:q + 3] == ["operator", "=", "("]]) != 1:
+                fail("ParametersSet::operator=: more than one overload: shape not understood")
+            params, init, body = function_body(cls, ["ParametersSet", "&", "operator", "=", "("], "ParametersSet::operator=")
+            if init:
+                fail("ParametersSet::operator=: shape not understood")
+            ps = J(params)
+            m1 = re.fullmatch(r"const ParametersSet & (\w+)", ps)
+            m2 = re.fullmatch(r"ParametersSet (\w+)", ps)
+            if not (m1 or m2):
+                fail("ParametersSet::operator=: parameter not understood: " + ps)
+            o = (m1 or m2).group(1)
+            by_value = bool(m2)
+            stmts = parse_block(body)
+            # if (this != &o) { ... }  /  if (this == &o) return *this;
+            flat = []
+            for st in stmts:
+                if st[0] == "if" and J(st[1]) in ("this != & %s" % o, "& %s != this" % o) and st[3] is None:
+                    inner = st[2]
+                    flat += inner[1] if inner[0] == "block" else [inner]
+                elif st[0] == "if" and J(st[1]) in ("this == & %s" % o, "& %s == this" % o) and st[3] is None and \
+                        st[2][0] == "simple" and J(st[2][1]) == "return * this":
+                    continue
+                else:
+                    flat.append(st)
+            got, tmp, ret = set(), None, False
+            for st in flat:
+                js = J(st[1]) if st[0] == "simple" else st[0]
+                if ret:
+                    fail("ParametersSet::operator=: statement after return")
+                if js == "return * this":
+                    ret = True
+                    continue
+                if js == "using std :: swap":
+                    continue
+                m = re.fullmatch(r"(?:const )?ParametersSet (\w+) (?:\( %s \)|= %s|\{ %s \})" % ((re.escape(o),) * 3), js)
+                if m and tmp is None and not by_value and not got:
+                    tmp = m.group(1)              # the copy is made inside: same thing as taking the argument by value
+                    continue
+                src = tmp if tmp is not None else o
+                m = re.fullmatch(r"(?:this -> )?(pmap|dups) = (?:std :: move \( )?%s \. (pmap|dups)(?: \))?" % re.escape(src), js)
+                if m and m.group(1) == m.group(2):
+                    got.add(F[m.group(1)])
+                    continue
+                if by_value or tmp is not None:
+                    m = re.fullmatch(r"(?:this -> )?(pmap|dups) \. swap \( %s \. (pmap|dups) \)" % re.escape(src), js) or \
+                        re.fullmatch(r"(?:std :: )?swap \( (?:this -> )?(pmap|dups) , %s \. (pmap|dups) \)" % re.escape(src), js)
+                    if m and m.group(1) == m.group(2):
+                        got.add(F[m.group(1)])
+                        continue
+                    m = re.fullmatch(r"%s \. (pmap|dups) \. swap \( (?:this -> )?(pmap|dups) \)" % re.escape(src), js) or \
+                        re.fullmatch(r"(?:std :: )?swap \( %s \. (pmap|dups) , (?:this -> )?(pmap|dups) \)" % re.escape(src), js)
+                    if m and m.group(1) == m.group(2):
+                        got.add(F[m.group(1)])
+                        continue
+                if st[0] == "simple" and self.c_irrelevant(st[1]):
+                    continue
+                fail("ParametersSet::operator=: statement not understood: " + js)
+            if not ret:
+                fail("ParametersSet::operator=: does not return *this")
+            assign = ("AsCopySwap" if (by_value or tmp is not None) else "AsFields", order(got))
+        return {"ctor": ctor, "assign": [assign[0], list(assign[1])]}
 
     def cmake(self, stmts, pn, what):
         """ParametersSet pg; pg.add(*this); pg.add(p); return pg;  -> (init, [calls])"""
@@ -1791,6 +1926,11 @@ def emit_coq(t):
     L.append("     ct_comma_param := (%s, %s);" % (ct["comma_param"][0], coq_calls(ct["comma_param"][1])))
     L.append("     ct_to_set := (%s, %s) |}." % (ct["to_set"][0], coq_calls(ct["to_set"][1])))
     L.append("")
+    cy = ct["copying"]
+    L.append("(* stichwort/parameter.hpp: copy constructor and operator= of ParametersSet (see Validate_Model.copying) *)")
+    L.append("Definition gen_copying : copying :=")
+    L.append("  {| cy_ctor := [%s]; cy_assign := %s [%s] |}." % ("; ".join(cy["ctor"]), cy["assign"][0], "; ".join(cy["assign"][1])))
+    L.append("")
     return "\n".join(L)
 
 
@@ -1920,6 +2060,12 @@ SELF_TEST_MUTATIONS = [
      "        parameters[target_dimension].checked()", "check on a derived quantity"),
     ("tapkee/methods/landmark_multidimensional_scaling.hpp", "InClosedRange<ScalarType>(3.0 / n_vectors, 1.0)",
      "InClosedRange<ScalarType>(3.0f / n_vectors, 1.0)", "bound computed in float"),
+    ("stichwort/parameter.hpp", "        this->pmap = other.pmap;\n        this->dups = other.dups;\n", "        this->pmap = other.pmap;\n",
+     "operator= forgets the duplicate list"),
+    ("stichwort/parameter.hpp", "ParametersSet(const ParametersSet& other) : pmap(other.pmap), dups(other.dups)",
+     "ParametersSet(const ParametersSet& other) : pmap(other.pmap), dups()", "copy constructor forgets the duplicate list"),
+    ("stichwort/parameter.hpp", "    ParametersSet& operator=(const ParametersSet& other)\n    {\n        this->pmap = other.pmap;\n        this->dups = other.dups;\n",
+     "    ParametersSet& operator=(ParametersSet other)\n    {\n        pmap.swap(other.pmap);\n", "copy-and-swap exchanges the map only"),
 ]
 
 
